@@ -577,6 +577,27 @@ def interrupted_scenario(nmem, seed=0, sig=15):
             "label": "interrupted-%d-signal%d" % (nmem, sig)}
 
 
+def linked_noexec_scenario(seed=0, cmd_dir=False):
+    """C06: the command file of one member is a symbolic link to a file WITHOUT execute permission (the link itself has
+    mode 0777 like every link): it is as non-executable as a regular file without the bit -- reported `not_executable`,
+    run failed, later group skipped."""
+    rng = random.Random(seed)
+    members = ["m0", "m1", "m2"]
+    ts = [{"path": m} for m in members] + [{"path": "later", "uses": list(members)}]
+    rng.shuffle(ts)
+    bad = rng.choice(members)
+    kinds = {"build|" + bad: "noexec"}
+    sc = {"targets": ts, "commands": ["build", "test"], "kinds": kinds, "fou": False, "scripts": {}, "mode": "all",
+          "symlinks": ["build|" + bad, "build|" + members[(members.index(bad) + 1) % 3]],
+          "label": "linked-noexec-%d%s" % (seed, "-cmddir" if cmd_dir else "")}
+    if cmd_dir:
+        for t in ts:
+            if t["path"] == bad:
+                t["commands"] = {"path": bad + "/ci"}
+        sc["cmd_dirs"] = {bad: bad + "/ci"}
+    return sc
+
+
 def impl_trace(rec, dbg):
     """The internal hook events of one run as a trace for RunImplTrace.tla (first record: the plan as executed)."""
     out = dbg.get("out")
